@@ -349,7 +349,10 @@ def execOp (ir : IR) (k : Nat) (pc : Nat) (op : Op) : P String := do
     | some tid => do K.switch; K.unpark tid; pure "ok"
   | "ctx" => do let n ← K.ctxSwitches; pure s!"v:{n}"
   | "reset_steps" => do K.resetSteps; pure "ok"
-  | "panic" => K.panic "vp-panic"
+  | "panic" => do
+    let me ← K.me
+    K.emit s!"O {me} {k} panicking"
+    K.panic "vp-panic"
   | "obs" => pure "ok"
   -- atomics
   | "aload" | "astore" | "aswap" | "aadd" | "asub" | "aand" | "aor" | "axor" | "anand" | "amax" | "amin" | "acas" => do
